@@ -158,7 +158,7 @@ def run(run):
     rng = run.rng
     run.do_ties()
     quick = run.quick
-    reqs = CORPUS + make_requests(rng, 2500 if quick else 120000)
+    reqs = CORPUS + make_requests(rng, run.n(2500, 120000))
     outcomes = {}
     for profile in ("debug", "release"):
         exe = core.harness(run, profile)
